@@ -5,8 +5,12 @@ package main
 // structural necessary condition of the property it is registered under.
 
 import (
+	"fmt"
 	"go/token"
 	"go/types"
+	"regexp"
+	"strconv"
+	"strings"
 
 	"golang.org/x/tools/go/ssa"
 )
@@ -965,4 +969,823 @@ func ruleJobRegistered(e *Engine, r *Report) {
 	r.check(!res.Found, "TBL-job-registered", "workerPool.start registers the job on every path", e.pos(start.Pos()),
 		"no job runs without being entered in an in-progress table", "a snapshot job can be started without being entered in saving/recovering/streaming: the exclusion predicates do not see it and a conflicting job of the same shard is scheduled concurrently", res.Trace(e)...)
 	r.floor("TBL-job-registered", n, 3)
+}
+
+// ---------------------------------------------------------------------------
+// Round 7, second half.
+
+// ruleSetRangeRebases (C19, C09): LogReader.SetRange always re-bases its
+// length to the range it is told about; it returns without touching the
+// length only for an empty range or a range entirely below the first index
+// (a shorter range inside the known one is a truncation and must shrink it).
+func ruleSetRangeRebases(e *Engine, r *Report) {
+	fn := r.need("(*internal/logdb.LogReader).SetRange")
+	length := r.needField("internal/logdb", "LogReader", "length")
+	first := r.need("(*internal/logdb.LogReader).firstIndex")
+	if fn == nil || length == nil || first == nil || len(fn.Params) < 3 {
+		return
+	}
+	lenP := func(v ssa.Value) bool { return stripConv(v) == ssa.Value(fn.Params[2]) }
+	exempt := reqAny("empty range, or the range ends below the first index",
+		reqCmp("", "==", lenP, intConstV(0)),
+		reqCmp("", "<", anyV(), e.callV(first)))
+	res := e.pathUnless(fn, nil, isReturn, isStoreToField(length), exempt)
+	r.check(!res.Found, "MPT-setrange-rebases", "LogReader.SetRange re-bases its length for every range it is given", e.pos(fn.Pos()),
+		"only an empty or obsolete range leaves the reader unchanged", "SetRange can return without adjusting the reader's length for a non-empty, non-obsolete range: after a persisted conflict truncation the reader keeps reporting the old, longer log (lastIndex/term answer for entries that no longer exist)", res.Trace(e)...)
+}
+
+// ruleCommitUpdateActs (C19, C02): every acknowledgement carried by an
+// UpdateCommit is acted on: the in-memory log handles StableLogTo and
+// StableSnapshotTo independently of each other (one record may carry both).
+func ruleCommitUpdateActs(e *Engine, r *Report) {
+	fn := r.need("(*internal/raft.inMemory).commitUpdate")
+	if fn == nil {
+		return
+	}
+	n := 0
+	for _, c := range [][2]string{{"StableLogTo", "savedLogTo"}, {"StableSnapshotTo", "savedSnapshotTo"}} {
+		fld := r.needField("raftpb", "UpdateCommit", c[0])
+		act := r.need("(*internal/raft.inMemory)." + c[1])
+		if fld == nil || act == nil {
+			continue
+		}
+		n++
+		isAct := e.throughHelpers(func(s ssa.CallInstruction) bool { return e.CallsTo(s, act) })
+		res := e.pathUnless(fn, nil, isReturn, isAct, reqCmp(c[0]+" is zero", "==", fieldV(fld), intConstV(0)))
+		r.check(!res.Found, "MPT-commitupdate-acts", "inMemory.commitUpdate acts on "+c[0], e.pos(fn.Pos()),
+			"the acknowledgement is applied whenever the field is set", "an UpdateCommit with "+c[0]+" set can pass through inMemory.commitUpdate without "+c[1]+": the in-memory log never learns that the entries/snapshot were persisted (entries are handed out for saving again, or never again)", res.Trace(e)...)
+	}
+	r.floor("MPT-commitupdate-acts", n, 2)
+}
+
+// ruleReadHashBound (C14): a reader that forwards what it read to a hash or
+// another consumer forwards exactly the bytes it delivers: inside a
+// Read([]byte) implementation of the snapshot file code the caller's buffer
+// is handed whole only to the underlying reader; every other consumer gets a
+// sub-slice bounded by a count.
+func ruleReadHashBound(e *Engine, r *Report) {
+	n := 0
+	for _, fn := range e.ScopeFuncs() {
+		p := fnPkg(fn)
+		if p == nil || (p != e.pkgTypes("internal/rsm") && p != e.pkgTypes("internal/utils/dio")) || fn.Name() != "Read" || fn.Signature.Recv() == nil || len(fn.Params) != 2 || !e.IsLive(fn) {
+			continue
+		}
+		buf := fn.Params[1]
+		if sl, ok := buf.Type().Underlying().(*types.Slice); !ok || !isByte(sl.Elem()) {
+			continue
+		}
+		n++
+		bad := ""
+		forEachCall(fn, func(s ssa.CallInstruction) {
+			cc := s.Common()
+			for _, a := range cc.Args {
+				if stripConv(a) != ssa.Value(buf) {
+					continue
+				}
+				// whole buffer: fine for a reader (Read / io.ReadFull / io.ReadAtLeast) and for copy's destination
+				if cc.IsInvoke() && cc.Method.Name() == "Read" {
+					continue
+				}
+				if sc := cc.StaticCallee(); sc != nil {
+					if sc.Pkg != nil && sc.Pkg.Pkg.Path() == "io" && (sc.Name() == "ReadFull" || sc.Name() == "ReadAtLeast") {
+						continue
+					}
+					if sc.Name() == "Read" {
+						continue
+					}
+				}
+				if b, ok := cc.Value.(*ssa.Builtin); ok && (b.Name() == "copy" && cc.Args[0] == a || b.Name() == "len" || b.Name() == "cap") {
+					continue
+				}
+				bad = e.ipos(s)
+			}
+		})
+		r.check(bad == "", "OWN-read-forward-bound", fname(fn)+" forwards only the bytes it read", e.pos(fn.Pos()),
+			"the caller's buffer goes whole only to the underlying reader", "the whole caller buffer (not the part filled by this read) is handed to another consumer at "+bad+": on a short read the checksum/consumer sees bytes that are not part of the stream, and an intact file is reported corrupt (or a corrupt one accepted)")
+	}
+	r.floor("OWN-read-forward-bound", n, 4)
+}
+
+func isByte(t types.Type) bool {
+	b, ok := t.Underlying().(*types.Basic)
+	return ok && (b.Kind() == types.Byte || b.Kind() == types.Uint8)
+}
+
+// ruleFrameHeaderCover (C13): the transport frame header's own checksum
+// covers the whole header (including the payload checksum field), on the
+// sending and the receiving side.
+func ruleFrameHeaderCover(e *Engine, r *Report) {
+	size := r.needConst("internal/transport", "requestHeaderSize")
+	if size == nil {
+		return
+	}
+	n := 0
+	for _, name := range []string{"(*internal/transport.requestHeader).encode", "(*internal/transport.requestHeader).decode"} {
+		fn := r.need(name)
+		if fn == nil {
+			continue
+		}
+		forEachCall(fn, func(s ssa.CallInstruction) {
+			sc := s.Common().StaticCallee()
+			if sc == nil || sc.Pkg == nil || sc.Pkg.Pkg.Path() != "hash/crc32" || len(s.Common().Args) == 0 {
+				return
+			}
+			n++
+			arg := s.Common().Args[len(s.Common().Args)-1]
+			sl, ok := stripConv(arg).(*ssa.Slice)
+			full := false
+			if ok && sl.Low == nil && sl.High != nil {
+				if k, isK := stripConv(sl.High).(*ssa.Const); isK && k.Value != nil && k.Value.ExactString() == size.Val().ExactString() {
+					full = true
+				}
+			}
+			if ok && sl.Low == nil && sl.High == nil {
+				full = true // the whole buffer, whose length is checked against the header size
+			}
+			r.check(full, "INTEG-frame-header-cover", "header checksum in "+fname(fn)+" is computed over the whole header", e.ipos(s),
+				"buf[:requestHeaderSize]", "the frame header's checksum no longer covers the whole header: damage to the uncovered bytes (the payload checksum field) is not detected, and with TLS on (payload checksum not verified) a corrupted frame is delivered")
+		})
+	}
+	r.floor("INTEG-frame-header-cover", n, 2)
+	// encode: every header field is in place before the checksum is computed
+	if enc := e.Func("(*internal/transport.requestHeader).encode"); enc != nil {
+		var sum ssa.Instruction
+		forEachCall(enc, func(s ssa.CallInstruction) {
+			if sc := s.Common().StaticCallee(); sc != nil && sc.Pkg != nil && sc.Pkg.Pkg.Path() == "hash/crc32" {
+				sum = s.(ssa.Instruction)
+			}
+		})
+		if sum != nil {
+			late := ""
+			res := e.findPath(enc, sum, func(in ssa.Instruction) bool {
+				c, ok := in.(ssa.CallInstruction)
+				if !ok || !c.Common().IsInvoke() {
+					return false
+				}
+				m := c.Common().Method.Name()
+				if m != "PutUint16" && m != "PutUint32" && m != "PutUint64" {
+					return false
+				}
+				// the store of the checksum itself is the one allowed late write
+				if len(c.Common().Args) == 2 && e.dependsOn(c.Common().Args[1], func(v ssa.Value) bool { return v == sum.(ssa.Value) }, 0) {
+					return false
+				}
+				late = e.ipos(in)
+				return true
+			}, nil, nil)
+			r.check(!res.Found, "INTEG-frame-header-cover", "requestHeader.encode writes every field before computing the header checksum", e.ipos(sum),
+				"only the checksum itself is stored afterwards", "a header field is written after the header checksum was computed ("+late+"): the checksum does not cover it")
+		}
+	}
+}
+
+// ruleCodecRawByte (C13): in the hand-written codecs a byte of the output
+// that is not a constant tag is produced by the varint encoder only; a
+// length prefix is never written as a raw byte.
+func ruleCodecRawByte(e *Engine, r *Report) {
+	n := 0
+	for _, rel := range []string{"raftpb", "client"} {
+		pk := e.pkgTypes(rel)
+		if pk == nil {
+			continue
+		}
+		for _, fn := range e.ScopeFuncs() {
+			if fnPkg(fn) != pk {
+				continue
+			}
+			isVarint := false
+			forEachInstr(fn, func(in ssa.Instruction) {
+				if b, ok := in.(*ssa.BinOp); ok && b.Op == token.OR {
+					if c, ok := b.Y.(*ssa.Const); ok && c.Value != nil && c.Value.ExactString() == "128" {
+						isVarint = true
+					}
+				}
+			})
+			forEachInstr(fn, func(in ssa.Instruction) {
+				st, ok := in.(*ssa.Store)
+				if !ok {
+					return
+				}
+				ia, ok := st.Addr.(*ssa.IndexAddr)
+				if !ok {
+					return
+				}
+				sl, ok := ia.X.Type().Underlying().(*types.Slice)
+				if !ok || !isByte(sl.Elem()) {
+					return
+				}
+				if _, isC := st.Val.(*ssa.Const); isC {
+					return
+				}
+				n++
+				r.check(isVarint, "TBL-codec-raw-byte", "non-constant byte stored in "+fname(fn), e.ipos(in),
+					"inside the varint encoder", "a computed value is written into the encoded output as a single raw byte outside the varint encoder: a length or field value of 128 or more is truncated / mis-framed and the record does not decode")
+			})
+		}
+	}
+	r.floor("TBL-codec-raw-byte", n, 2)
+}
+
+// losslessToFormatter: v reaches an argument of a string formatter
+// (fmt.Sprintf/Sprint, strconv.FormatUint/Itoa) through conversions,
+// interface boxing, varargs packing and parameter passing only - never
+// through arithmetic.
+func (e *Engine) losslessToFormatter(v ssa.Value, depth int, seen map[ssa.Value]bool) bool {
+	if depth > 6 || seen[v] {
+		return false
+	}
+	seen[v] = true
+	refs := v.Referrers()
+	if refs == nil {
+		return false
+	}
+	for _, ref := range *refs {
+		switch x := ref.(type) {
+		case *ssa.Convert:
+			if e.losslessToFormatter(x, depth, seen) {
+				return true
+			}
+		case *ssa.ChangeType:
+			if e.losslessToFormatter(x, depth, seen) {
+				return true
+			}
+		case *ssa.MakeInterface:
+			if e.losslessToFormatter(x, depth, seen) {
+				return true
+			}
+		case *ssa.Store:
+			if x.Val != v {
+				continue
+			}
+			if ia, ok := x.Addr.(*ssa.IndexAddr); ok {
+				if e.losslessToFormatter(ia.X, depth, seen) {
+					return true
+				}
+			}
+		case *ssa.Slice:
+			if e.losslessToFormatter(x, depth, seen) {
+				return true
+			}
+		case ssa.CallInstruction:
+			sc := x.Common().StaticCallee()
+			if sc == nil {
+				continue
+			}
+			if sc.Pkg != nil {
+				pp := sc.Pkg.Pkg.Path()
+				if (pp == "fmt" && (sc.Name() == "Sprintf" || sc.Name() == "Sprint")) || (pp == "strconv" && (sc.Name() == "FormatUint" || sc.Name() == "Itoa" || sc.Name() == "FormatInt")) {
+					return true
+				}
+			}
+			if len(sc.Blocks) == 0 {
+				continue
+			}
+			for i, a := range x.Common().Args {
+				if a == v && i < len(sc.Params) {
+					if e.losslessToFormatter(sc.Params[i], depth+1, seen) {
+						return true
+					}
+				}
+			}
+		}
+	}
+	return false
+}
+
+// ruleChunkKeyInjective (C15): the key under which the receiver tracks a
+// snapshot stream identifies the stream: shard id, replica id and snapshot
+// index each reach the formatted key unmodified.
+func ruleChunkKeyInjective(e *Engine, r *Report) {
+	fn := r.need("internal/transport.chunkKey")
+	if fn == nil {
+		return
+	}
+	n := 0
+	for _, f := range []string{"ShardID", "ReplicaID", "Index"} {
+		fld := r.needField("raftpb", "Chunk", f)
+		if fld == nil {
+			continue
+		}
+		ok := false
+		forEachInstr(fn, func(in ssa.Instruction) {
+			v, isV := in.(ssa.Value)
+			if !isV || !fieldV(fld)(v) {
+				return
+			}
+			if e.losslessToFormatter(v, 0, map[ssa.Value]bool{}) {
+				ok = true
+			}
+		})
+		n++
+		r.check(ok, "DEP-chunk-key-injective", "chunkKey contains Chunk."+f+" unmodified", e.pos(fn.Pos()),
+			"the field reaches the formatted key without arithmetic", "the stream tracking key no longer contains Chunk."+f+" as is (it is reduced/transformed or missing): two different snapshot streams can share a key, and the first chunk of one is taken as a restart of the other (its temp dir is deleted)")
+	}
+	r.floor("DEP-chunk-key-injective", n, 3)
+}
+
+// ruleChunkCountSource (C15): the number of chunks announced in every chunk
+// (ChunkCount, on which IsLastChunk rests) is the number of chunks produced:
+// it is the length of the chunk list, or it is computed by the same single
+// function that decides how many chunks a file is split into.
+func ruleChunkCountSource(e *Engine, r *Report) {
+	gc := r.need("internal/transport.getChunks")
+	cc := r.needField("raftpb", "Chunk", "ChunkCount")
+	if gc == nil || cc == nil {
+		return
+	}
+	// functions of the package that divide by the chunk size
+	tp := e.pkgTypes("internal/transport")
+	var dividers []*ssa.Function
+	for _, fn := range e.ScopeFuncs() {
+		if fnPkg(fn) != tp || !e.IsLive(outermostFn(fn)) {
+			continue
+		}
+		hit := false
+		forEachInstr(fn, func(in ssa.Instruction) {
+			b, ok := in.(*ssa.BinOp)
+			if !ok || b.Op != token.QUO {
+				return
+			}
+			if e.dependsOn(b.Y, func(v ssa.Value) bool { g, ok := v.(*ssa.Global); return ok && g.Name() == "snapshotChunkSize" }, 0) {
+				hit = true
+			}
+		})
+		if hit {
+			dividers = append(dividers, fn)
+		}
+	}
+	r.check(len(dividers) == 1, "DEP-chunk-count-source", "the number of chunks per file is computed in one place", e.pos(gc.Pos()),
+		"a single function divides by the chunk size", "the per-file chunk count is computed in "+itoa(len(dividers))+" places ("+strings.Join(names(dividers), ", ")+"): the announced ChunkCount and the chunks actually produced can disagree at boundary sizes, so no chunk is ever the last one (or the stream finalizes early)")
+	n := 0
+	e.forEachInstrRegion(gc, 1, func(in ssa.Instruction) {
+		st, ok := in.(*ssa.Store)
+		if !ok {
+			return
+		}
+		if f, _, ok := fieldOfAddr(st.Addr); !ok || f != cc {
+			return
+		}
+		n++
+		isLen := func(v ssa.Value) bool {
+			c, ok := v.(*ssa.Call)
+			if !ok {
+				return false
+			}
+			b, ok := c.Call.Value.(*ssa.Builtin)
+			return ok && b.Name() == "len"
+		}
+		fromDivider := func(v ssa.Value) bool {
+			c, ok := v.(*ssa.Call)
+			if !ok {
+				return false
+			}
+			for _, d := range dividers {
+				if e.CallsTo(c, d) {
+					return true
+				}
+			}
+			return false
+		}
+		ok2 := e.dependsOn(st.Val, isLen, 1) || (len(dividers) == 1 && e.dependsOn(st.Val, fromDivider, 1))
+		r.check(ok2, "DEP-chunk-count-source", "Chunk.ChunkCount set in "+fname(in.Parent()), e.ipos(in),
+			"derived from the produced chunk list", "ChunkCount is not derived from the list of chunks produced ("+e.describeValue(st.Val)+")")
+	})
+	r.floor("DEP-chunk-count-source", n, 1)
+}
+
+// ruleSnapshotJobSlot (C17): a snapshot connection slot taken by createJob
+// (bounded by the maximum number of snapshot connections) is given back or
+// handed to the worker that gives it back on every path; a slot leaked on a
+// refusal path is gone for the life of the process, and when all are gone no
+// snapshot can ever be sent again.
+func ruleSnapshotJobSlot(e *Engine, r *Report) {
+	cj := r.need("(*internal/transport.Transport).createJob")
+	jobs := r.needField("internal/transport", "Transport", "jobs")
+	if cj == nil || jobs == nil {
+		return
+	}
+	isRelease := func(in ssa.Instruction) bool {
+		c, ok := in.(ssa.CallInstruction)
+		if !ok {
+			return false
+		}
+		cc := c.Common()
+		if sc := cc.StaticCallee(); sc != nil && sc.Pkg != nil && sc.Pkg.Pkg.Path() == "sync/atomic" && sc.Name() == "AddUint64" && len(cc.Args) == 2 {
+			if f, _, ok := fieldOfAddr(cc.Args[0]); ok && f == jobs {
+				if k, ok := cc.Args[1].(*ssa.Const); !ok || k.Value == nil || k.Value.ExactString() != "1" {
+					return true
+				}
+			}
+		}
+		// hand-off to a worker goroutine whose body releases the slot
+		for _, a := range cc.Args {
+			if mc, ok := a.(*ssa.MakeClosure); ok {
+				if body, ok := mc.Fn.(*ssa.Function); ok {
+					rel := false
+					for _, g := range e.regionOf(body, 2) {
+						forEachCall(g, func(s2 ssa.CallInstruction) {
+							c2 := s2.Common()
+							if sc := c2.StaticCallee(); sc != nil && sc.Pkg != nil && sc.Pkg.Pkg.Path() == "sync/atomic" && sc.Name() == "AddUint64" && len(c2.Args) == 2 {
+								if f, _, ok := fieldOfAddr(c2.Args[0]); ok && f == jobs {
+									rel = true
+								}
+							}
+						})
+					}
+					// closures reference the release closure through free variables
+					for _, b := range mc.Bindings {
+						if al, ok := b.(*ssa.Alloc); ok {
+							for _, sv := range storesInto(al) {
+								if mc2, ok := sv.(*ssa.MakeClosure); ok {
+									if body2, ok := mc2.Fn.(*ssa.Function); ok {
+										forEachCall(body2, func(s2 ssa.CallInstruction) {
+											c2 := s2.Common()
+											if sc := c2.StaticCallee(); sc != nil && sc.Name() == "AddUint64" && len(c2.Args) == 2 {
+												if f, _, ok := fieldOfAddr(c2.Args[0]); ok && f == jobs {
+													rel = true
+												}
+											}
+										})
+									}
+								}
+							}
+						}
+						if mc2, ok := b.(*ssa.MakeClosure); ok {
+							if body2, ok := mc2.Fn.(*ssa.Function); ok {
+								forEachCall(body2, func(s2 ssa.CallInstruction) {
+									c2 := s2.Common()
+									if sc := c2.StaticCallee(); sc != nil && sc.Name() == "AddUint64" && len(c2.Args) == 2 {
+										if f, _, ok := fieldOfAddr(c2.Args[0]); ok && f == jobs {
+											rel = true
+										}
+									}
+								})
+							}
+						}
+					}
+					if rel {
+						return true
+					}
+				}
+			}
+		}
+		return false
+	}
+	n := 0
+	var check func(site ssa.Instruction, jobV ssa.Value, depth int)
+	check = func(site ssa.Instruction, jobV ssa.Value, depth int) {
+		fn := site.Parent()
+		n++
+		isJob := func(v ssa.Value) bool {
+			return v == jobV || e.dependsOn(v, func(x ssa.Value) bool { return x == jobV }, 0)
+		}
+		isNilJob := reqCmp("no job was created", "==", isJob, func(v ssa.Value) bool { return isNilConst(v) })
+		// returns that pass the job on to the caller are hand-offs, checked in the callers
+		handsOff := func(in ssa.Instruction) bool {
+			ret, ok := in.(*ssa.Return)
+			if !ok {
+				return false
+			}
+			for i := range ret.Results {
+				if isJob(retOperand(ret, i)) {
+					return true
+				}
+			}
+			return false
+		}
+		handed := false
+		res := e.pathUnless(fn, site, func(in ssa.Instruction) bool {
+			if !isReturn(in) {
+				return false
+			}
+			if handsOff(in) {
+				handed = true
+				return false
+			}
+			return true
+		}, isRelease, isNilJob)
+		r.check(!res.Found, "PAIR-snapshot-job-slot", "slot taken by createJob in "+fname(fn)+" is released or handed to the sending worker", e.ipos(site),
+			"every path after a successful createJob releases the slot or starts the worker that does", "a path after a successful createJob returns without releasing the connection slot and without starting the worker that releases it: each such refusal leaks one of the bounded snapshot connection slots, and once all are leaked no snapshot can be sent or streamed again (lagging replicas never catch up)", res.Trace(e)...)
+		if handed && depth > 0 {
+			for _, cs := range e.CallerSites(fn) {
+				if !e.IsLive(cs.Parent()) {
+					continue
+				}
+				var jv ssa.Value
+				if v, ok := cs.(ssa.Value); ok {
+					jv = v
+					if refs := v.Referrers(); refs != nil {
+						for _, ref := range *refs {
+							if ex, ok := ref.(*ssa.Extract); ok {
+								if _, isPtr := ex.Type().Underlying().(*types.Pointer); isPtr {
+									jv = ex
+								}
+							}
+						}
+					}
+				}
+				if jv != nil {
+					check(cs.(ssa.Instruction), jv, depth-1)
+				}
+			}
+		}
+	}
+	for _, s := range e.CallerSites(cj) {
+		if !e.IsLive(s.Parent()) {
+			continue
+		}
+		if v, ok := s.(ssa.Value); ok {
+			check(s.(ssa.Instruction), v, 2)
+		}
+	}
+	r.floor("PAIR-snapshot-job-slot", n, 2)
+}
+
+// ruleJobUnregistered (C17, C11): when a snapshot worker completes, the
+// shard's entry in the in-progress table it was found in is removed or
+// counted down in the table itself (a count kept only in a local leaves the
+// shard "in progress" for ever and no further snapshot job of the shard is
+// scheduled).
+func ruleJobUnregistered(e *Engine, r *Report) {
+	fn := r.need("(*dragonboat.workerPool).completed")
+	if fn == nil {
+		return
+	}
+	n := 0
+	for _, tn := range []string{"saving", "recovering", "streaming"} {
+		tb := r.needField("dragonboat", "workerPool", tn)
+		if tb == nil {
+			continue
+		}
+		updates := func(in ssa.Instruction) bool {
+			switch x := in.(type) {
+			case *ssa.MapUpdate:
+				return fieldV(tb)(x.Map)
+			case *ssa.Call:
+				if b, ok := x.Call.Value.(*ssa.Builtin); ok && b.Name() == "delete" && len(x.Call.Args) == 2 && fieldV(tb)(x.Call.Args[0]) {
+					return true
+				}
+			}
+			return false
+		}
+		// through helpers: a same-package callee that updates the table on every path
+		helper := map[*ssa.Function]bool{}
+		for _, g := range e.regionOf(fn, 2) {
+			if g == fn {
+				continue
+			}
+			has := false
+			forEachInstr(g, func(in ssa.Instruction) {
+				if updates(in) {
+					has = true
+				}
+			})
+			if has && !e.findPath(g, nil, isReturn, updates, nil).Found {
+				helper[g] = true
+			}
+		}
+		upd := func(in ssa.Instruction) bool {
+			if updates(in) {
+				return true
+			}
+			if c, ok := in.(*ssa.Call); ok {
+				if sc := c.Call.StaticCallee(); sc != nil && helper[sc] {
+					return true
+				}
+			}
+			return false
+		}
+		forEachInstr(fn, func(in ssa.Instruction) {
+			ifi, ok := in.(*ssa.If)
+			if !ok {
+				return
+			}
+			ex, ok := ifi.Cond.(*ssa.Extract)
+			if !ok || ex.Index != 1 {
+				return
+			}
+			lk, ok := ex.Tuple.(*ssa.Lookup)
+			if !ok || !fieldV(tb)(lk.X) {
+				return
+			}
+			n++
+			first := ifi.Block().Succs[0]
+			if len(first.Instrs) == 0 {
+				return
+			}
+			res := e.findPath(fn, nil, isReturn, upd, func(p, s *ssa.BasicBlock) bool {
+				// only paths through the found-edge
+				if p == ifi.Block() {
+					return s == first
+				}
+				return true
+			})
+			// the path must actually pass the found-edge: search from the first instruction of that block
+			res = e.findPath(fn, first.Instrs[0], isReturn, upd, nil)
+			if upd(first.Instrs[0]) {
+				res.Found = false
+			}
+			r.check(!res.Found, "PAIR-job-unregistered", "workerPool.completed updates "+tn+" when the shard is found in it", e.ipos(in),
+				"the table entry is removed or counted down", "a completed job found in workerPool."+tn+" can leave the table unchanged: the shard stays \"in progress\" for ever and no save / recover job of it is scheduled again", res.Trace(e)...)
+		})
+	}
+	r.floor("PAIR-job-unregistered", n, 3)
+}
+
+// ruleTanInstallRemovesFirst (C20, C09): Tan's installSnapshot (the import
+// path) wipes the node's previous records unconditionally before it writes
+// the imported snapshot record (the index only moves its snapshot pointer
+// forward, so an older imported snapshot would otherwise be ignored).
+func ruleTanInstallRemovesFirst(e *Engine, r *Report) {
+	fn := r.need("(*internal/tan.db).installSnapshot")
+	rm := r.need("(*internal/tan.db).removeAllLocked")
+	wr := r.need("(*internal/tan.db).doWriteLocked")
+	if fn == nil || rm == nil || wr == nil {
+		return
+	}
+	isRm := e.throughHelpers(func(s ssa.CallInstruction) bool { return e.CallsTo(s, rm) })
+	n := 0
+	for _, s := range e.SitesIn(fn, wr) {
+		n++
+		ok, w := e.alwaysPrecededBy(s.(ssa.Instruction), isRm, 0)
+		r.check(ok, "MPT-tan-install-removes-first", "installSnapshot removes the node's records before writing the imported snapshot", e.ipos(s),
+			"unconditional wipe, then the snapshot record", "the imported snapshot record can be written without first removing the node's previous records: a newer snapshot the replica already holds wins after restart and the import is silently ignored", w...)
+	}
+	r.floor("MPT-tan-install-removes-first", n, 1)
+}
+
+// ruleShardRouting (C20, C09): every operation of the sharded log store
+// reaches the partition chosen by the partitioner (the one function the
+// engine's workers also use); no method computes its own partition number.
+func ruleShardRouting(e *Engine, r *Report) {
+	shards := r.needField("internal/logdb", "ShardedDB", "shards")
+	gp := r.needMethod("internal/server", "IPartitioner", "GetPartitionID")
+	if shards == nil || gp == nil {
+		return
+	}
+	n := 0
+	lp := e.pkgTypes("internal/logdb")
+	for _, fn := range e.ScopeFuncs() {
+		if fnPkg(fn) != lp || !e.IsLive(outermostFn(fn)) {
+			continue
+		}
+		forEachInstr(fn, func(in ssa.Instruction) {
+			ia, ok := in.(*ssa.IndexAddr)
+			if !ok || !fieldV(shards)(ia.X) {
+				return
+			}
+			if c, isC := ia.Index.(*ssa.Const); isC && c.Value != nil && c.Value.ExactString() == "0" {
+				return // name()/binaryFormat(): any shard will do
+			}
+			n++
+			fromPartitioner := e.dependsOn(ia.Index, func(v ssa.Value) bool {
+				return e.methodCallV(gp)(v)
+			}, 2)
+			// an index that is a range/loop variable over all shards, or handed in by a caller that got it from the partitioner
+			loopVar := e.dependsOn(ia.Index, func(v ssa.Value) bool {
+				if _, ok := v.(*ssa.Phi); ok {
+					return true
+				}
+				if ex, ok := v.(*ssa.Extract); ok {
+					_, isNext := ex.Tuple.(*ssa.Next)
+					return isNext
+				}
+				return false
+			}, 0)
+			param := e.dependsOn(ia.Index, func(v ssa.Value) bool { _, ok := v.(*ssa.Parameter); return ok }, 0) && !e.dependsOn(ia.Index, func(v ssa.Value) bool {
+				b, ok := v.(*ssa.BinOp)
+				return ok && (b.Op == token.REM || b.Op == token.AND)
+			}, 0)
+			hasArith := e.dependsOn(ia.Index, func(v ssa.Value) bool {
+				b, ok := v.(*ssa.BinOp)
+				return ok && (b.Op == token.REM || b.Op == token.AND || b.Op == token.QUO)
+			}, 0)
+			r.check(fromPartitioner || ((loopVar || param) && !hasArith), "TBL-shard-routing", "partition selected in "+fname(fn)+" #"+itoa(n), e.ipos(in),
+				"the partitioner's answer (or a sweep over all partitions)", "a sharded log store method picks its partition with its own arithmetic instead of the partitioner: when the engine and the log store are configured with different shard counts the record lands in a partition nobody reads for that raft shard (the call still succeeds)")
+		})
+	}
+	r.floor("TBL-shard-routing", n, 8)
+}
+
+// ruleTempDirNamePattern (C16): the names given to temporary snapshot
+// directories are names the restart-time orphan scan recognises. The format
+// strings and the regular expressions are constants of the source; the rule
+// formats representative index / replica id values with the former and
+// matches the results against the latter (done by the checker on constants,
+// no code of the repository is run).
+func ruleTempDirNamePattern(e *Engine, r *Report) {
+	gt := r.need("internal/server.getTempDirName")
+	gd := r.need("internal/server.getDirName")
+	if gt == nil || gd == nil {
+		return
+	}
+	constFormat := func(fn *ssa.Function) (string, bool) {
+		out, ok := "", false
+		forEachCall(fn, func(s ssa.CallInstruction) {
+			sc := s.Common().StaticCallee()
+			if sc == nil || sc.Pkg == nil || sc.Pkg.Pkg.Path() != "fmt" || sc.Name() != "Sprintf" || len(s.Common().Args) == 0 {
+				return
+			}
+			if c, isC := s.Common().Args[0].(*ssa.Const); isC && c.Value != nil {
+				out, ok = constantString(c), true
+			}
+		})
+		return out, ok
+	}
+	tf, ok1 := constFormat(gt)
+	df, ok2 := constFormat(gd)
+	// the patterns: regexp.MustCompile(<const>) stored into the package-level variables
+	pats := map[string]string{}
+	sp := e.pkgTypes("internal/server")
+	for _, fn := range e.ScopeFuncs() {
+		if fnPkg(fn) != sp || fn.Name() != "init" {
+			continue
+		}
+		forEachInstr(fn, func(in ssa.Instruction) {
+			st, ok := in.(*ssa.Store)
+			if !ok {
+				return
+			}
+			g, ok := st.Addr.(*ssa.Global)
+			if !ok {
+				return
+			}
+			c, ok := st.Val.(*ssa.Call)
+			if !ok {
+				return
+			}
+			sc := c.Call.StaticCallee()
+			if sc == nil || sc.Pkg == nil || sc.Pkg.Pkg.Path() != "regexp" || len(c.Call.Args) == 0 {
+				return
+			}
+			if k, isC := c.Call.Args[0].(*ssa.Const); isC && k.Value != nil {
+				pats[g.Name()] = constantString(k)
+			}
+		})
+	}
+	gen, okg := pats["GenSnapshotDirNameRe"]
+	rcv, okr := pats["RecvSnapshotDirNameRe"]
+	if !ok1 || !ok2 || !okg || !okr {
+		r.undecided("TBL-tempdir-name-pattern", "internal/server", "format strings or patterns of the temp snapshot dir names are no longer constants")
+		return
+	}
+	// getTempDirName's format takes (dirName string, from uint64, suffix string)
+	bad := ""
+	samples := []uint64{0, 1, 9, 10, 11, 12, 15, 26, 255, 4095, 0xABCDEF0123456789, ^uint64(0)}
+	for _, suf := range [][2]string{{"generating", gen}, {"receiving", rcv}} {
+		re, err := regexp.Compile(suf[1])
+		if err != nil {
+			r.undecided("TBL-tempdir-name-pattern", suf[1], "pattern does not compile")
+			return
+		}
+		for _, idx := range samples {
+			for _, from := range samples {
+				name := fmt.Sprintf(tf, fmt.Sprintf(df, idx), from, suf[0])
+				if strings.Contains(name, "%!") {
+					r.undecided("TBL-tempdir-name-pattern", tf, "format no longer takes (dir name, replica id, suffix)")
+					return
+				}
+				if !re.MatchString(name) && bad == "" {
+					bad = name + " does not match " + suf[1]
+				}
+			}
+		}
+	}
+	r.check(bad == "", "TBL-tempdir-name-pattern", "temporary snapshot dir names match the orphan patterns", e.pos(gt.Pos()),
+		"formats "+df+" / "+tf+" against the .generating and .receiving patterns, "+itoa(len(samples)*len(samples)*2)+" sample names", "a temporary snapshot directory can get a name the restart-time orphan scan does not recognise ("+bad+"): the directory of an interrupted save/receive is never removed")
+}
+
+func constantString(c *ssa.Const) string {
+	s := c.Value.ExactString()
+	if u, err := strconv.Unquote(s); err == nil {
+		return u
+	}
+	return s
+}
+
+// ruleLogQueryAnswered (C12): a raft log query has no deadline, so the only
+// way it gets its result is the LogQuery handler: every role whose API
+// admits the request (all but the witness) has a LogQuery cell, and the
+// handler produces a result record on every returning path.
+func ruleLogQueryAnswered(e *Engine, r *Report) {
+	tbl, err := e.RaftHandlerTable()
+	if err != nil {
+		r.undecided("TBL", "raft.handlers", err.Error())
+		return
+	}
+	res := r.needField("internal/raft", "raft", "logQueryResult")
+	n := 0
+	for _, st := range []string{"follower", "candidate", "preVoteCandidate", "leader", "nonVoting"} {
+		c := tbl.Get(st, "LogQuery")
+		r.check(c != nil, "TBL-logquery-answered", st+" has a LogQuery cell", "-", "the query is served in this role",
+			"role "+st+" accepts QueryRaftLog (the node API refuses it only on witnesses) but has no LogQuery handler: the message is ignored silently and, as log queries have no deadline, the request never gets a result while the shard runs (and blocks every later query)")
+		n++
+		if c == nil || c.Fn == nil || res == nil {
+			continue
+		}
+		p := e.findPath(c.Fn, nil, isReturn, isStoreToField(res), nil)
+		r.check(!p.Found, "TBL-logquery-answered", fname(c.Fn)+" ("+st+") records a result on every path", e.pos(c.Fn.Pos()),
+			"raft.logQueryResult is set before the handler returns", "the LogQuery handler can return without recording a result", p.Trace(e)...)
+	}
+	r.floor("TBL-logquery-answered", n, 5)
 }
